@@ -51,6 +51,19 @@ int main(int argc, char **argv) {
       fprintf(stderr, "unknown property\n"); return 2;
     }
     if (cmd == "list") { for (auto &d : property_registry()) printf("%s %s\n", d.id.c_str(), d.world.c_str()); return 0; }
+    if (cmd == "selftest") {   // differential test of simos against the host kernel (world K); exit 0 agreed, 2 disagreement
+      std::string images = arg_val(argc, argv, "--images", ""); uint64_t n = strtoull(arg_val(argc, argv, "--n", "400"), 0, 10), seed = strtoull(arg_val(argc, argv, "--seed", "1"), 0, 10);
+      uint64_t bad = 0, steps = 0;
+      for (uint64_t i = 0; i < n; i++) {
+        Plan p; p.property = "KSELF"; p.world = "K"; p.seed = mix64(seed, i); p.knobs.set("steps", (long long)(20 + i % 60)).set("stick", 1.0).set("split_p", 0.0);   // no injected short transfers: the host kernel does not make them
+        if (i % 8 == 7) p.knobs.set("script", "fifo");
+        RunResult r = run_plan(p, images);
+        steps += r.probes.count("kself_steps") ? r.probes["kself_steps"] : 0;
+        if (r.verdict != "ok") { bad++; if (bad <= 5) printf("selftest plan %llu (seed %llu): %s %s\n", (unsigned long long)i, (unsigned long long)p.seed, r.verdict.c_str(), r.violations.empty() ? r.note.c_str() : r.violations[0].detail.c_str()); }
+      }
+      printf("selftest: %llu operation sequences (%llu operations) run against simos and against the host kernel, %llu disagree\n", (unsigned long long)n, (unsigned long long)steps, (unsigned long long)bad);
+      return bad ? 2 : 0;
+    }
     if (cmd == "replay") return replay_main(argc, argv);
     if (cmd == "check") return check_main(argc, argv);
     if (cmd == "determinism") return determinism_main(argc, argv);
